@@ -140,6 +140,9 @@ func (f *frame) tryFmtCall(c *ssa.CallCommon, key string, st *State) (Val, bool)
 		g.define(n, "Str", t)
 		return Val{T: n, Ty: tyStr}, true
 	case "fmt.Fprintf":
+		if len(c.Args) < 3 {
+			return Val{}, false
+		}
 		mi, ok := c.Args[0].(*ssa.MakeInterface)
 		if !ok {
 			return Val{}, false
